@@ -22,6 +22,7 @@ use samply_symbols::{
 };
 use verif_harness::common::*;
 use verif_harness::gen::elf_syms::*;
+use verif_harness::gen::objpres;
 
 pub struct C05;
 
@@ -328,10 +329,57 @@ fn after_panic(map: &mut Map, reload: &dyn Fn() -> Option<Map>, probe: Option<&Q
     }
 }
 
+/// `threads` threads share the map; they start together (barrier) and look up every query in their own order,
+/// alternating `lookup_sync` / async `lookup`, with partial enumerations in between.
+fn thread_pass(map: &Map, queries: &[Query], threads: usize, seed: u64, answers: &mut [BTreeSet<String>], stats: &mut Stats) {
+    // queries outside the hypotheses may panic and poison the shared map: they stay out of this pass
+    let order: Vec<usize> = (0..queries.len()).filter(|&i| queries[i].claim != "xwf").collect();
+    let barrier = std::sync::Barrier::new(threads);
+    let barrier = &barrier;
+    let per_thread: Vec<Vec<(usize, String)>> = std::thread::scope(|s| {
+        let hs: Vec<_> = (0..threads)
+            .map(|t| {
+                let mut order = order.clone();
+                let mut rng = Rng::new(seed.wrapping_add(t as u64 + 1));
+                // half of the threads walk the same order so that they hit the same cold entry at the same time
+                if t % 2 == 1 {
+                    rng.shuffle(&mut order);
+                }
+                s.spawn(move || {
+                    let mut v = Vec::with_capacity(order.len());
+                    barrier.wait();
+                    for (k, &i) in order.iter().enumerate() {
+                        if k % 64 == 63 {
+                            // interleave enumerations with lookups
+                            let _ = map.iter_symbols().take(16).count();
+                        }
+                        v.push((i, one_lookup(map, &queries[i], k % 2 == 1)));
+                    }
+                    v
+                })
+            })
+            .collect();
+        hs.into_iter().map(|h| h.join().unwrap_or_default()).collect()
+    });
+    for v in per_thread {
+        for (i, a) in v {
+            answers[i].insert(a);
+        }
+    }
+    stats.add("threaded_lookups", (threads * queries.len()) as u64);
+}
+
 fn observe(mut map: Map, reload: &dyn Fn() -> Option<Map>, queries: &[Query], threads: usize, seed: u64, stats: &mut Stats) -> Observed {
     let mut answers: Vec<BTreeSet<String>> = vec![BTreeSet::new(); queries.len()];
     let mut first: Vec<String> = Vec::with_capacity(queries.len());
     let mut probe: Option<Query> = None;
+    // every other threaded case: the threads come FIRST, on the freshly loaded map (cold caches: the `Vacant` arms of
+    // the Breakpad / jitdump caches and the first use of the DWARF context run concurrently), released together
+    let threads_first = threads > 0 && seed % 2 == 0;
+    if threads_first {
+        thread_pass(&map, queries, threads, seed, &mut answers, stats);
+        stats.bump("threaded_cases_on_a_fresh_map");
+    }
     // pass 1: cold cache, in order
     for (i, q) in queries.iter().enumerate() {
         let a = one_lookup(&map, q, false);
@@ -365,38 +413,9 @@ fn observe(mut map: Map, reload: &dyn Fn() -> Option<Map>, queries: &[Query], th
         }
         answers[i].insert(a);
     }
-    // pass 5: threads sharing the map
-    if threads > 0 {
-        let map = &map;
-        // queries outside the hypotheses may panic and poison the shared map: they stay out of this pass
-        let order: Vec<usize> = order.iter().copied().filter(|&i| queries[i].claim != "xwf").collect();
-        let per_thread: Vec<Vec<(usize, String)>> = std::thread::scope(|s| {
-            let hs: Vec<_> = (0..threads)
-                .map(|t| {
-                    let mut order = order.clone();
-                    let mut rng = Rng::new(seed.wrapping_add(t as u64 + 1));
-                    rng.shuffle(&mut order);
-                    s.spawn(move || {
-                        let mut v = Vec::with_capacity(order.len());
-                        for (k, &i) in order.iter().enumerate() {
-                            if k % 64 == 63 {
-                                // interleave enumerations with lookups
-                                let _ = map.iter_symbols().take(16).count();
-                            }
-                            v.push((i, one_lookup(map, &queries[i], k % 2 == 1)));
-                        }
-                        v
-                    })
-                })
-                .collect();
-            hs.into_iter().map(|h| h.join().unwrap_or_default()).collect()
-        });
-        for v in per_thread {
-            for (i, a) in v {
-                answers[i].insert(a);
-            }
-        }
-        stats.add("threaded_lookups", (threads * queries.len()) as u64);
+    // pass 5: threads sharing the (by now warm) map
+    if threads > 0 && !threads_first {
+        thread_pass(&map, queries, threads, seed, &mut answers, stats);
     }
     stats.add("lookups", (queries.len() * 3) as u64);
     for a in &first {
@@ -487,13 +506,18 @@ fn fixture_tag(path: &str, bytes: &[u8]) -> &'static str {
 fn object_layout(bytes: &[u8]) -> Option<(u64, Vec<(u64, u64, u64)>)> {
     let file = object::File::parse(bytes).ok()?;
     let base = relative_address_base(&file);
-    let ranges: Vec<(u64, u64, u64)> = file
+    let mut ranges: Vec<(u64, u64, u64)> = file
         .segments()
         .map(|s| {
             let (o, sz) = s.file_range();
             (o, sz, s.address())
         })
         .collect();
+    if ranges.is_empty() {
+        // relocatable objects have no segments: the file ranges of the sections stand in
+        use samply_symbols::object::ObjectSection;
+        ranges = file.sections().filter_map(|s| s.file_range().map(|(o, sz)| (o, sz, s.address()))).collect();
+    }
     Some((base, ranges))
 }
 
@@ -569,14 +593,56 @@ fn neighbourhood(sorted: &[(u32, String)], tag: &str, claim: &str) -> String {
 }
 
 fn fixture_answers(map: Map, reload: &dyn Fn() -> Option<Map>, tag: &str, queries: &[Query], threads: usize, seed: u64, stats: &mut Stats) -> Vec<String> {
+    fixture_observed(map, reload, tag, queries, threads, seed, stats).0
+}
+
+/// (answer lines, `count` line, `itsum` line)
+fn fixture_observed(map: Map, reload: &dyn Fn() -> Option<Map>, tag: &str, queries: &[Query], threads: usize, seed: u64, stats: &mut Stats) -> (Vec<String>, String, String) {
     let obs = observe(map, reload, queries, threads, seed, stats);
     let mut sorted = obs.symbols.clone();
     sorted.sort();
-    queries
+    let answers = queries
         .iter()
         .zip(&obs.answers)
         .map(|(q, ans)| format!("{} ; {}", ans.join(" | "), neighbourhood(&sorted, tag, &q.claim)))
-        .collect()
+        .collect();
+    let sum_addr = obs.symbols.iter().fold(0u64, |acc, s| acc.wrapping_add(s.0 as u64));
+    let sum_len: usize = obs.symbols.iter().map(|s| s.1.len()).sum();
+    (answers, format!("count {}", obs.count), format!("itsum {} {} {}", obs.symbols.len(), sum_addr, sum_len))
+}
+
+/// how many fixtures of each kind load (and how many of them are presented to the model): the floors are in the
+/// judge, so that a change which makes a whole family of files fail to load cannot pass by silently removing
+/// its cases
+fn census() -> Vec<String> {
+    let root = fixtures_root();
+    let mut loaded: BTreeMap<&'static str, u64> = BTreeMap::new();
+    let mut modelled: BTreeMap<&'static str, u64> = BTreeMap::new();
+    let mut skipped = Vec::new();
+    for path in fixture_files() {
+        let Ok(bytes) = std::fs::read(root.join(&path)) else { continue };
+        let bytes: Arc<[u8]> = bytes.into();
+        let tag = fixture_tag(&path, &bytes);
+        match catch_unwind(AssertUnwindSafe(|| load_map(bytes.clone(), &path))) {
+            Ok(Ok(_)) => {
+                *loaded.entry(tag).or_default() += 1;
+                if tag != "pdb" && objpres::presentation(&bytes, tag).is_some() {
+                    *modelled.entry(tag).or_default() += 1;
+                }
+            }
+            Ok(Err(_)) => skipped.push(format!("skipped {}", path.replace(' ', "_"))),
+            Err(_) => skipped.push(format!("load-panic {}", path.replace(' ', "_"))),
+        }
+    }
+    let mut out = Vec::new();
+    for (t, n) in &loaded {
+        out.push(format!("loaded {t} {n}"));
+    }
+    for (t, n) in &modelled {
+        out.push(format!("modelled {t} {n}"));
+    }
+    out.extend(skipped);
+    out
 }
 
 fn fixture_cases(tier: Tier) -> Vec<Case> {
@@ -681,6 +747,59 @@ fn fixture_cases(tier: Tier) -> Vec<Case> {
             let end = ranges.iter().map(|r| r.0 + r.1).max().unwrap_or(0);
             for o in [end, end + 4096, u64::MAX] {
                 queries.push(Query { form: Form::O, addr: o, claim: claim_offset(*base, ranges, o) });
+            }
+        }
+        // object kinds: the `object` presentation of the file goes into the ops and the Lean model builds the symbol
+        // list itself (`kind fxobj`); the all-symbol sweep below (judge-only) is then kept in the thorough tier only
+        let pres = if tag == "pdb" { None } else { objpres::presentation(&bytes, tag) };
+        if let Some(pres) = &pres {
+            // quick: at most ~1500 lookups per file; thorough: at most ~24000 in cases of 4000
+            let (cap, per_case) = if tier == Tier::Thorough { (24000usize, 4000usize) } else { (1500usize, 1500usize) };
+            let step = queries.len().div_ceil(cap).max(1);
+            // keep whole groups (all forms of one relative address are adjacent): sample by claimed address
+            let mut sample: Vec<Query> = Vec::new();
+            let mut group = 0usize;
+            let mut last_claim = String::new();
+            for q in &queries {
+                if q.claim != last_claim {
+                    group += 1;
+                    last_claim = q.claim.clone();
+                }
+                if group % step == 0 || q.claim == "none" || q.claim == "xwf" {
+                    sample.push(q.clone());
+                }
+            }
+            for (k, chunk) in sample.chunks(per_case).enumerate() {
+                let threads = if tier == Tier::Thorough { 8 } else if k == 0 { 4 } else { 0 };
+                // oracle values of demangle_any for the names around the queries
+                let mut dem: BTreeSet<String> = BTreeSet::new();
+                for q in chunk {
+                    if let Ok(a) = q.claim.parse::<u64>() {
+                        let idx = symbols.partition_point(|(s, _)| (*s as u64) <= a);
+                        if idx > 0 {
+                            let raw = &symbols[idx - 1].1;
+                            let d = demangle_any(raw);
+                            if &d != raw {
+                                dem.insert(format!("dem {} {}", name_hex(raw), name_hex(&d)));
+                            }
+                        }
+                    }
+                }
+                let mut desc: Vec<String> = pres.clone();
+                desc.extend(dem);
+                let mut ops = vec![format!("kind fxobj {tag} {path}")];
+                if threads > 0 {
+                    ops.push(format!("threads {threads}"));
+                }
+                ops.push(format!("fsum {}", objpres::desc_hash(desc.iter())));
+                ops.extend(desc);
+                for q in chunk {
+                    ops.push(format!("q {} {} {}", q.form.tag(), q.addr, q.claim));
+                }
+                cases.push(Case { name: format!("fo-{}-{k}", path.replace(['/', ' '], "_")), ops });
+            }
+            if tier != Tier::Thorough {
+                continue;
             }
         }
         // split into cases of at most 600 queries, recording the answers of this (generation-time) run
@@ -1193,6 +1312,9 @@ impl Prop for C05 {
                 "q o 98 0", "q o 102 4", "q o 161 none", "q o 219 5", "q o 225 11", "q o 226 none", "q s 5 none",
             ],
         ));
+        let mut c = vec!["kind census".to_string()];
+        c.extend(census());
+        v.push(Case { name: "fixture-census".to_string(), ops: c });
         v.extend(fixture_cases(tier));
         v
     }
@@ -1263,6 +1385,32 @@ impl Prop for C05 {
                     Ok(Ok(map)) => generated_output(map, &reload, ops, |n| n.to_string(), stats),
                 }
             }
+            Some("census") => census(),
+            Some("fxobj") => {
+                let tag = kind.get(2).copied().unwrap_or("other");
+                let path = kind[3..].join(" ");
+                // the description must be the one this file has (a shrunk case is answered `bad-op` by both sides)
+                let want = ops.iter().find_map(|l| l.strip_prefix("fsum ")).and_then(|s| s.trim().parse::<u64>().ok());
+                if want != Some(objpres::desc_hash(ops.iter())) {
+                    return vec!["bad-op".to_string()];
+                }
+                stats.bump(&format!("fxobj_{tag}"));
+                let Ok(bytes) = std::fs::read(fixtures_root().join(&path)) else { return vec!["err:read".to_string()] };
+                let bytes: Arc<[u8]> = bytes.into();
+                let queries: Vec<Query> = ops.iter().filter_map(|l| parse_query(l)).collect();
+                let threads = ops.iter().find_map(|l| l.strip_prefix("threads ")).and_then(|s| s.trim().parse().ok()).unwrap_or(0);
+                let reload = || load_map(bytes.clone(), &path).ok();
+                match catch_unwind(AssertUnwindSafe(|| load_map(bytes.clone(), &path))) {
+                    Err(_) => vec!["panic".to_string()],
+                    Ok(Err(_)) => vec!["err:load".to_string()],
+                    Ok(Ok(map)) => {
+                        let (answers, count, itsum) = fixture_observed(map, &reload, tag, &queries, threads, fnv1a(ops), stats);
+                        let mut out = vec![count, itsum];
+                        out.extend(answers.into_iter().zip(&queries).map(|(a, q)| format!("a {} {} {}", q.form.tag(), q.addr, a)));
+                        out
+                    }
+                }
+            }
             Some("fixture") => {
                 let tag = kind.get(2).copied().unwrap_or("other");
                 let path = kind[3..].join(" ");
@@ -1284,6 +1432,10 @@ impl Prop for C05 {
             }
             _ => vec!["bad-op".to_string()],
         }
+    }
+    fn isolate(&self) -> Option<(u64, u64)> {
+        // a deadlock between the map's mutexes (or a runaway allocation while loading) becomes `crash:<how>` of one case
+        Some((120, 8192))
     }
     fn nontrivial(&self, ops: &[String], out: &[String]) -> bool {
         // at least one lookup answered with a symbol and one with none
